@@ -58,6 +58,17 @@ pub enum Cmd {
     WorkspaceForgetOther,
     Status,
     BookmarkSet(u16),
+    // Commands below are used by C42 (and C40's generator at low weight).
+    Metaedit(u16),
+    Parallelize(u16),
+    SimplifyParents(u16),
+    Duplicate(u16),
+    Absorb,
+    RebaseSource(u16, u16),
+    RebaseBranch(u16, u16),
+    SquashFromInto(u16, u16),
+    TagSet(u16),
+    AbandonDescendants(u16),
 }
 
 #[derive(Debug, Clone, Serialize, Deserialize)]
@@ -97,6 +108,12 @@ pub fn cmd_strategy() -> impl Strategy<Value = Cmd> {
         1 => Just(Cmd::WorkspaceForgetOther),
         1 => Just(Cmd::Status),
         1 => any::<u16>().prop_map(Cmd::BookmarkSet),
+        1 => any::<u16>().prop_map(Cmd::Metaedit),
+        1 => any::<u16>().prop_map(Cmd::Parallelize),
+        1 => any::<u16>().prop_map(Cmd::Duplicate),
+        1 => Just(Cmd::Absorb),
+        1 => (any::<u16>(), any::<u16>()).prop_map(|(a, b)| Cmd::RebaseSource(a, b)),
+        1 => (any::<u16>(), any::<u16>()).prop_map(|(a, b)| Cmd::SquashFromInto(a, b)),
     ]
 }
 
@@ -232,6 +249,48 @@ impl World {
                 rev(*r, other),
                 "--allow-backwards".into(),
             ],
+            Cmd::Metaedit(r) => vec![
+                "metaedit".into(),
+                "--update-author-timestamp".into(),
+                "--force-rewrite".into(),
+                rev(*r, other),
+            ],
+            Cmd::Parallelize(r) => vec!["parallelize".into(), format!("({})-::({})", rev(*r, other), rev(*r, other))],
+            Cmd::SimplifyParents(r) => vec!["simplify-parents".into(), "-r".into(), rev(*r, other)],
+            Cmd::Duplicate(r) => vec!["duplicate".into(), rev(*r, other)],
+            Cmd::Absorb => s(&["absorb"]),
+            Cmd::RebaseSource(r, d) => vec![
+                "rebase".into(),
+                "-s".into(),
+                rev(*r, other),
+                "-d".into(),
+                rev(*d, other),
+            ],
+            Cmd::RebaseBranch(r, d) => vec![
+                "rebase".into(),
+                "-b".into(),
+                rev(*r, other),
+                "-d".into(),
+                rev(*d, other),
+            ],
+            Cmd::SquashFromInto(f, t) => vec![
+                "squash".into(),
+                "--from".into(),
+                rev(*f, other),
+                "--into".into(),
+                rev(*t, other),
+                "-m".into(),
+                format!("squashed {step_no}"),
+            ],
+            Cmd::TagSet(r) => vec![
+                "tag".into(),
+                "set".into(),
+                "v1".into(),
+                "-r".into(),
+                rev(*r, other),
+                "--allow-move".into(),
+            ],
+            Cmd::AbandonDescendants(r) => vec!["abandon".into(), format!("({})::", rev(*r, other))],
         }
     }
 
